@@ -9,6 +9,7 @@ package main
 
 import (
 	"fmt"
+	"golang.org/x/tools/go/ssa"
 	"os"
 	"sort"
 	"strconv"
@@ -252,6 +253,38 @@ func init() {
 		for _, n := range args {
 			fn := p.Fn(n)
 			fmt.Println(n, "direct:", sortedKeys(mi.direct[fn]), "trans:", sortedKeys(mi.trans[fn]))
+		}
+	}
+}
+
+func init() {
+	debugHooks["hst"] = func(p *Prog, args []string) {
+		c := newCheck("C07", p)
+		fn := p.Fn("peer.handleStateTransition")
+		h := c.peerHooks(fn)
+		ef := c.runHST(hstScenario{i: 0, hook: hooks(rangeHook(h.tTo, isConst(5)), rangeHook(h.tFrom, isConst(4)), rangeHook(h.otherState, isConst(5)), relHook(h.id, h.remoteID, ">"))})
+		fmt.Println(ef.a.Undecided, ef.calls, len(ef.sel))
+		for _, b := range fn.Blocks {
+			fmt.Printf("block %d: %d\n", b.Index, len(ef.a.In[b]))
+			for _, k := range sortedKeys(ef.a.In[b]) {
+				fmt.Printf("   [%s] %s\n", k, trunc(ef.a.In[b][k].digest(), 700))
+			}
+		}
+	}
+}
+
+func init() {
+	debugHooks["at"] = func(p *Prog, args []string) {
+		fn := p.Fn(args[0])
+		a := NewAnalysis(p, fn)
+		a.Run()
+		for _, cl := range p.callsIn(fn, descIs(args[1])) {
+			for _, st := range a.At[cl.(ssa.Instruction)] {
+				fmt.Println(p.InstrPos(cl.(ssa.Instruction)), st.digest())
+				for _, k := range sortedKeys(st.mem) {
+					fmt.Println("   MEM", k, "=", trunc(st.mem[k].Key, 100))
+				}
+			}
 		}
 	}
 }
